@@ -24,6 +24,9 @@ type wlPlain struct {
 	// ScribbleFirst: before anything else a graph of this other model is built
 	// and everything its accessors hand out is overwritten.
 	ScribbleFirst *Model `json:"scribble_first,omitempty"`
+	// ReuseObject: the graph of ScribbleFirst is built from a model object that
+	// the caller then overwrites in place with the model under test.
+	ReuseObject bool `json:"reuse_object,omitempty"`
 }
 
 // ---------------------------------------------------------------------------
@@ -581,15 +584,23 @@ func (c *plainCtx) check0(cfg simrt.Config) ([]mismatch, simrt.Stats, string) {
 	simrt.Begin(cfg)
 	var o plainObs
 	simrt.Run([]func(){func() {
+		pm := c.pm
 		if c.wl.ScribbleFirst != nil {
-			if g, err := graph.NewAuthorizationModelGraph(c.wl.ScribbleFirst.toProto()); err == nil {
+			first := c.wl.ScribbleFirst.toProto()
+			if g, err := graph.NewAuthorizationModelGraph(first); err == nil {
 				scribblePlain(g)
 				if rev, err := g.Reversed(); err == nil {
 					scribblePlain(rev)
 				}
 			}
+			if c.wl.ReuseObject {
+				proto.Reset(first)
+				proto.Merge(first, c.pm)
+				simrt.CountFault("history.object_reused")
+				pm = first
+			}
 		}
-		o = observePlain(c.pm, c.labels, c.withCycles)
+		o = observePlain(pm, c.labels, c.withCycles)
 	}})
 	st := simrt.End()
 	if o.panicMsg != "" {
@@ -814,7 +825,9 @@ func plainRunOne(b *BatchResult, prop string, seed, run uint64, nRandom int) {
 		m = genSeparatorCollision(r)
 		b.Mix["separator_collision_models"]++
 	} else if r.chance(2) {
-		switch r.intn(3) {
+		switch r.intn(4) {
+		case 3:
+			m = genManyRestrictions(r)
 		case 0:
 			m = genDeepNesting(r)
 		case 1:
@@ -834,6 +847,15 @@ func plainRunOne(b *BatchResult, prop string, seed, run uint64, nRandom int) {
 	if r.chance(15) {
 		wl.ScribbleFirst = genModel(r, plainKnobs(r))
 		b.Mix["scribbled_histories"]++
+	} else if r.chance(12) && len(m.Types) <= 12 {
+		// the caller edits ONE model object in place between two builds: the
+		// first build sees a near-duplicate (same names, one relation dropped or
+		// redirected), the second the model under test
+		if cands := modelCandidates(m); len(cands) > 0 {
+			wl.ScribbleFirst = cands[r.intn(len(cands))]
+			wl.ReuseObject = true
+			b.Mix["object_reuse_histories"]++
+		}
 	}
 	c := newPlainCtx(wl)
 	b.Workloads++
